@@ -1,6 +1,6 @@
 // C28 tie: term construction sequences against the term store, through the Logic API.
 //
-// stdin : one sequence per line   "<mode> <op>;<op>;..."   mode in raw_uf raw_lia raw_lra simp_uf simp_lia simp_lra
+// stdin : one sequence per line   "<mode> <op>;<op>;..."   mode in raw_uf raw_lia raw_lra simp_uf simp_lia simp_lra simp_qlia simp_qlra
 //   ops (r = index of an earlier op of the same line whose result is a term):
 //     V <s> <k>        variable k of sort s (U: uninterpreted sort, B: Bool, N: Int/Real of the mode)
 //     K <s> <text>     constant by name: Logic::mkConst(sort, text) / ArithLogic::mkConst(sort, text)
@@ -11,7 +11,9 @@
 //     U <j> r...       mkUninterpFun(signature[j], args)
 //     P M L G          mkPlus mkTimes mkLeq mkNeg
 // stdout: a trace per sequence (see ocaml/hashcons_driver.ml):
-//     BEGIN <mode> <dmax> / SYM.. NODE.. (initial) / OP.. / FINAL / SYM.. NODE.. (final) / ORDER ok|bad / END
+//     BEGIN <mode> <dmax> / SYM.. NODE.. (initial) / OP.. each followed by NEW <id> <sym> <args> for the terms it created /
+//     REISSUE ok|<first problem> (every call of the sequence issued again: same result, nothing allocated) /
+//     FINAL / SYM.. NODE.. (final) / ORDER ok|bad / END
 #include <ArithLogic.h>
 #include <Logic.h>
 #include <tsolvers/egraph/CgTypes.h>
@@ -87,18 +89,22 @@ template<class L> struct Runner {
     uint32_t symIdOf(SymRef sr) { return logic.getSym(sr).getId(); }
 };
 
-template<class L> void run_line(std::string const & mode, std::string const & rest, std::ostream & out) {
+template<class L> void run_line(std::string const & mode, std::string const & rest, std::ostream & realOut) {
+    std::ostream & out = realOut;
     constexpr bool isArith = std::is_base_of_v<ArithLogic, L>;
     bool raw = mode.rfind("raw", 0) == 0;
+    bool pureArith = mode.find("_q") != std::string::npos;     // simp_qlia / simp_qlra: no UF in the logic, so
+                                                                // ArithLogic::mkBinaryEq normalises equalities itself
     Logic_t lt = mode == "raw_uf" || mode == "simp_uf" ? Logic_t::QF_UF
-                 : (mode.find("lia") != std::string::npos ? Logic_t::QF_UFLIA : Logic_t::QF_UFLRA);
+                 : (mode.find("lia") != std::string::npos ? (pureArith ? Logic_t::QF_LIA : Logic_t::QF_UFLIA)
+                                                          : (pureArith ? Logic_t::QF_LRA : Logic_t::QF_UFLRA));
     L logic(lt);
     sigcodes.clear();
     Runner<L> R(logic, isArith, out);
     SRef sB = logic.getSort_bool();
     SRef sU = logic.declareUninterpretedSort("U");
     SRef sN = SRef_Undef;
-    if constexpr (isArith) { sN = lt == Logic_t::QF_UFLIA ? logic.getSort_int() : logic.getSort_real(); }
+    if constexpr (isArith) { sN = (lt == Logic_t::QF_UFLIA || lt == Logic_t::QF_LIA) ? logic.getSort_int() : logic.getSort_real(); }
     // the bounded signature
     std::vector<SymRef> sig;
     sig.push_back(logic.declareFun("f", sU, {sU}));                                              // 0
@@ -130,14 +136,51 @@ template<class L> void run_line(std::string const & mode, std::string const & re
     R.dump();
     out << "OPS\n";
 
+    // pass 0 executes the sequence and prints the trace; pass 1 (whole-store audit) re-issues every constructor call of
+    // the sequence: each must return the same term and must allocate neither a term nor a symbol
+    std::vector<PTRef> res0;
+    std::vector<std::string> status0;
+    std::string reissue = "ok";
+    std::ostringstream devnull;
+    for (int pass = 0; pass < 2; pass++) {
+    std::ostream & out = pass == 0 ? realOut : static_cast<std::ostream &>(devnull);
     std::vector<PTRef> res; // result per op (PTRef_Undef if none)
     std::istringstream ls(rest);
     std::string opt;
+    int opIndex = -1;
     while (std::getline(ls, opt, ';')) {
         std::istringstream is(opt);
         std::string k;
         is >> k;
         if (k.empty()) continue;
+        opIndex++;
+        std::size_t termsBefore = logic.getNumberOfTerms();
+        int symsBefore = logic.sym_store.getSymbols().size();
+        auto after = [&](PTRef result, std::string const & st) {
+            if (pass == 0) {
+                // the terms this operation created
+                PtermIter it = logic.getPtermIter();
+                std::size_t idx = 0;
+                for (PTRef tr = *it; tr != PTRef_Undef; ++it, tr = *it, idx++) {
+                    if (idx < termsBefore) continue;
+                    Pterm const & t = logic.getPterm(tr);
+                    out << "NEW " << t.getId().x << " " << logic.getSym(t.symb()).getId();
+                    for (int i = 0; i < t.size(); i++) out << " " << logic.getPterm(t[i]).getId().x;
+                    out << "\n";
+                }
+                res0.push_back(result);
+                status0.push_back(st);
+            } else if (reissue == "ok") {
+                std::ostringstream why;
+                if (logic.getNumberOfTerms() != termsBefore)
+                    why << "op " << opIndex << " (" << opt << ") re-issued allocates " << (logic.getNumberOfTerms() - termsBefore) << " term(s)";
+                else if ((int)logic.sym_store.getSymbols().size() != symsBefore)
+                    why << "op " << opIndex << " (" << opt << ") re-issued declares a symbol";
+                else if (opIndex < (int)res0.size() && (res0[opIndex] != result || status0[opIndex] != st))
+                    why << "op " << opIndex << " (" << opt << ") re-issued returns another term";
+                if (!why.str().empty()) reissue = why.str();
+            }
+        };
         PTRef r = PTRef_Undef;
         std::ostringstream line;
         bool skip = false;
@@ -240,6 +283,7 @@ template<class L> void run_line(std::string const & mode, std::string const & re
         if (skip) {
             out << "OP skip -> skip\n";
             res.push_back(PTRef_Undef);
+            after(PTRef_Undef, "skip");
             continue;
         }
         if (status.empty() && r == PTRef_Undef) status = "exc";
@@ -249,10 +293,14 @@ template<class L> void run_line(std::string const & mode, std::string const & re
         else out << R.idOf(r);
         out << "\n";
         res.push_back(status == "exc" ? PTRef_Undef : r);
+        after(status == "exc" ? PTRef_Undef : r, status);
     }
-    out << "FINAL\n";
-    R.dump();
-    out << "END\n";
+    }
+    realOut << "REISSUE " << reissue << "\n";
+    realOut << "FINAL\n";
+    Runner<L> RF(logic, isArith, realOut);
+    RF.dump();
+    realOut << "END\n";
 }
 
 int main() {
